@@ -74,9 +74,15 @@ def impl(op, a, ctx):
     from bitcoinutils.script import Script
     F = Fields(a)
     tx = line_to_tx(F)
+    muts = None
     if op == 'dig_legacy_after':
-        muts = G.parse_muts(F); G.exercise(tx); G.apply_mutations(tx, muts)
+        muts = G.parse_muts(F)
     i = F.nat(); code = F.toks(); ht = F.nat(); F.done()
+    if muts is not None:
+        G.exercise(tx)
+        try: tx.get_transaction_digest(i, Script(code), ht)       # same call before the change
+        except Exception: pass
+        G.apply_mutations(tx, muts)
     return 'ok ' + hx(tx.get_transaction_digest(i, Script(code), ht))
 
 
